@@ -15,8 +15,28 @@ var restUnsupported = map[string]bool{"log": true, "subscribe": true, "unsubscri
 
 func genC19(r *R, seed uint64, idx int, tier string) *Scenario {
 	var sc *Scenario
-	mode := Pick(r, "restscale", "restupdate", "restlife", "restlife", "restnames")
+	mode := Pick(r, "restscale", "restupdate", "restlife", "restlife", "restnames", "restslow")
 	switch mode {
+	case "restslow":
+		// operations that take their time on the server (a restart with a long back-off, a
+		// stop that has to wait for its time-out): the client waits for the answer
+		sc, _ = baseScenario("C19", seed)
+		spec := &ProjectSpec{}
+		sc.Project = spec
+		sc.Scripts = map[string]*TokenScript{}
+		spec.Procs = append(spec.Procs,
+			&ProcSpec{Name: "sl", Token: "sl", Restart: "on_failure", Backoff: iptr(Pick(r, 6, 7, 9))},
+			&ProcSpec{Name: "ig", Token: "ig", StopTimeout: iptr(Pick(r, 6, 8))})
+		life := simos.Script{LifeMs: -1, TermLagMs: 10}
+		sc.Scripts["sl"] = &TokenScript{Launches: []simos.Script{life, life, life}}
+		stub := simos.Script{LifeMs: -1, Ignore: []int{15}}
+		sc.Scripts["ig"] = &TokenScript{Launches: []simos.Script{stub, stub}}
+		sc.Clients = append(sc.Clients, Client{Name: "c", Ops: []Op{{AtMs: 1000, Op: "restart", Arg: "sl"}, {AtMs: 12000, Op: "stop", Arg: "ig"}, {AtMs: 21000, Op: "start", Arg: "ig"}}})
+		sc.Strategy = genStrategy(r)
+		sc.Strategy.StallPermille = 0
+		sc.RunForMs = 26000
+		sc.QuietMs = 10000
+		sc.Arm = "slow"
 	case "restnames":
 		// process names that need escaping in a URL path: the client and the router must agree
 		sc, _ = baseScenario("C19", seed)
@@ -139,6 +159,13 @@ func checkC19(sc *Scenario, res *RunResult, t *Truth) []Violation {
 	// the operations went through REST: the oracles of the direct calls must hold unchanged
 	var sub []Violation
 	switch sc.Mode2 {
+	case "restslow":
+		// the requests are valid and the processes are up: they succeed, however long they take
+		for _, c := range t.Calls {
+			if c.Client == "c" && c.RetSeq >= 0 && c.Err != "" {
+				add("rest-outcome-differs", c.Op, fmt.Sprintf("%s through the REST client failed with %q after %v; the same request on the runner succeeds", c.Desc, c.Err, c.RetT-c.CallT), c.RetSeq)
+			}
+		}
 	case "restnames":
 		// a request about an existing process is never answered "no such process"
 		for _, c := range t.Calls {
